@@ -204,8 +204,7 @@ class CLI:
                     continue
                 self.detect_file(mo, file)
                 if inspect:
-                    mo.inspect()
-                    print()
+                    self.inspect_file(mo, file)
         elif self._args.bucket_name:
             if self._args.prefix:
                 if self._args.suffix:
@@ -233,8 +232,7 @@ class CLI:
                     continue
                 self.detect_file(mo, mos_file_key)
                 if inspect:
-                    mo.inspect()
-                    print()
+                    self.inspect_file(mo, mos_file_key)
         else:
             sys.stderr.write("Files or bucket name and prefix or key must be provided\n\n")
             self.do_help()
@@ -245,6 +243,14 @@ class CLI:
             print(f"{filename}: {mo.__class__.__name__} (completed)")
         else:
             print(f"{filename}: {mo.__class__.__name__}")
+
+    def inspect_file(self, mo, filename):
+        try:
+            mo.inspect()
+        except Exception as e:
+            # a message that cannot be outlined must not stop the other files
+            sys.stderr.write(f"{filename}: Unable to inspect: {e}\n")
+        print()
 
     def do_merge(self):
         self._args.cmd = 'merge'
